@@ -76,9 +76,10 @@ def extra(ctx):
                 "indirect_calls": {f: v["indirect"] for f, v in facts["funs"].items() if v["indirect"]}}
         wrappable = [s for s in forbidden if s.isidentifier()]
         found = None
-        if wrappable:
+        for variant in ("wrap", "wrapbe"):          # the default and the big-endian configuration
+            if not wrappable or found: break
             env = dict(vlib.ENV, WRAP=" ".join(wrappable))
-            r = vlib.sh([os.path.join(vlib.V, "tools", "build_harness.sh"), "wrap"], env=env, timeout=600)
+            r = vlib.sh([os.path.join(vlib.V, "tools", "build_harness.sh"), variant], env=env, timeout=600)
             hpath = r.stdout.strip().splitlines()[-1] if r.stdout.strip() else ""
             if os.path.exists(hpath):
                 rng = random.Random(ctx["seed"] * 31 + 5)
@@ -94,13 +95,13 @@ def extra(ctx):
                     for c in cs:
                         ob = res.get(c.cid)
                         if ob and ob[0].crash and "status=97" in ob[0].crash:
-                            found = (c, ob[0], envname); break
+                            found = (c, ob[0], envname + (" in the big-endian configuration (-D__sparc)" if variant == "wrapbe" else "")); break
                     if found: break
                 cov["evaluations"] += len(cs)
         if found:
             c, ob, envname = found
             viol.append({"case": c, "fails": ["the library called a function outside its passive interface (%s) on this input%s; call sites: %s" %
-                                              (", ".join(forbidden), (" with %s set" % envname) if envname else "", json.dumps(paths)[:600])], "diffs": [], "cobs": ob, "mobs": None})
+                                              (", ".join(forbidden), (" with %s" % envname) if envname else "", json.dumps(paths)[:600])], "diffs": [], "cobs": ob, "mobs": None})
         else:
             corr.append({"case": None, "fails": ["C20 theorems no longer check: " + json.dumps(info)[:1500]], "diffs": []})
     return viol, corr, cov
